@@ -302,6 +302,16 @@ impl ASN1Type {
         &mut self,
         tlds: &BTreeMap<String, ToplevelDefinition>,
     ) -> Result<(), GrammarError> {
+        self.link_tagged_choice_selection_type(&mut None, tlds)
+    }
+
+    /// Resolves selection types. `tag` is the tag written in front of `self`:
+    /// an untagged selection type takes over the tag of the selected alternative.
+    pub(crate) fn link_tagged_choice_selection_type(
+        &mut self,
+        tag: &mut Option<AsnTag>,
+        tlds: &BTreeMap<String, ToplevelDefinition>,
+    ) -> Result<(), GrammarError> {
         match self {
             ASN1Type::ChoiceSelectionType(c) => {
                 if let Some(ToplevelDefinition::Type(parent)) = tlds.get(&c.choice_name) {
@@ -320,6 +330,9 @@ impl ASN1Type {
                                         c.selected_option
                                     )
                                 })?;
+                            if tag.is_none() {
+                                *tag = selected.tag.clone();
+                            }
                             *self = selected.ty.clone();
                         }
                         _ => *self = parent.ty.clone(),
@@ -336,14 +349,13 @@ impl ASN1Type {
             ASN1Type::Sequence(s) | ASN1Type::Set(s) => s
                 .members
                 .iter_mut()
-                .try_for_each(|m| m.ty.link_choice_selection_type(tlds)),
-            ASN1Type::Choice(c) => c
-                .options
-                .iter_mut()
-                .try_for_each(|o: &mut ChoiceOption| o.ty.link_choice_selection_type(tlds)),
-            ASN1Type::SequenceOf(s) | ASN1Type::SetOf(s) => {
-                s.element_type.link_choice_selection_type(tlds)
-            }
+                .try_for_each(|m| m.ty.link_tagged_choice_selection_type(&mut m.tag, tlds)),
+            ASN1Type::Choice(c) => c.options.iter_mut().try_for_each(|o: &mut ChoiceOption| {
+                o.ty.link_tagged_choice_selection_type(&mut o.tag, tlds)
+            }),
+            ASN1Type::SequenceOf(s) | ASN1Type::SetOf(s) => s
+                .element_type
+                .link_tagged_choice_selection_type(&mut s.element_tag, tlds),
             _ => Ok(()),
         }
     }
